@@ -61,7 +61,11 @@ func (x *Exec) doCallCommon(fr *Frame, st *State, cc *ssa.CallCommon, site ssa.I
 
 func (x *Exec) callStatic(fr *Frame, st *State, fn *ssa.Function, args []*SV, free []*SV, site ssa.Instruction, k callK) {
 	key := x.eng.fnKey(fn)
-	if con := x.eng.contractFor(fn); con != nil && !(fr.pure && con.Pure && fn.Blocks != nil && x.eng.inlinable(fn)) {
+	upkg := ""
+	if x.unit != nil && x.unit.Con != nil {
+		upkg = x.unit.Con.Pkg
+	}
+	if con := x.eng.contractSeenFrom(upkg, fn); con != nil && (con.View || !(fr.pure && con.Pure && fn.Blocks != nil && x.eng.inlinable(fn))) {
 		x.applyContract(fr, st, con, fn.Signature, args, site, k)
 		return
 	}
@@ -154,6 +158,11 @@ func (x *Exec) applyContractNamed(fr *Frame, st *State, con *Contract, names []s
 	if !fr.pure {
 		for _, c := range append(append([]*Clause{}, con.Requires...), con.Callers...) {
 			g := x.evalClauseBool(c, env, st)
+			if c.Assumed {
+				x.notes = append(x.notes, "assumed (unchecked) precondition "+callee+":"+c.Label)
+				st.assume(g)
+				continue
+			}
 			label := fmt.Sprintf("%s:%s", callee, c.Label)
 			if site != nil {
 				label += "@" + x.srcLabel(pos, "call")
